@@ -242,7 +242,9 @@ def judge(case, res):
     res.evaluations += 1
     comp = case['compress']
     with env.scratch_dir('bbv-c15-') as root:
-        srcdir = os.path.join(root, 'p', 'src')
+        # (a brace in a directory name is nothing special - unless a message is built with str.format twice)
+        pdir = ['p', 'p', 'fw-{board}', 'build-{0}', 'odd}name'][env.chash(case['fault'])[1] % 5]
+        srcdir = os.path.join(root, pdir, 'src')
         os.makedirs(srcdir)
         os.makedirs(os.path.join(root, 'inc1'))
         os.makedirs(os.path.join(root, 'inc2'))
@@ -281,15 +283,23 @@ def judge(case, res):
                 raise env.HarnessError('planted line %r found %d times' % (case['fault'], len(hits)))
             ok_sites = hits
         inc = [os.path.join(root, 'inc1'), os.path.join(root, 'inc2')]
+        # a program without includes is handed over as source TEXT half of the time, with LF, CR LF or CR-only line ends
+        # (str.splitlines and open() agree on all three); its lines are then lines of "<string>"
+        as_text = stats['depth'] == 0 and not stats.get('bins') and env.chash(main_text)[1] % 2 == 0 and case['cls'] not in ('noinclude',)
+        eol = ['\n', '\r\n', '\r'][env.chash(main_text)[2] % 3]
         with env.cwd(root):
             path = os.path.relpath(main, root) if case['main_rel'] else main
             exc = None
             try:
-                a.assemble(path, compress=comp, include_dirs=inc)
+                if as_text:
+                    res.count('source_text:' + {'\n': 'LF', '\r\n': 'CRLF', '\r': 'CR'}[eol])
+                    a.assemble(main_text.replace('\n', eol), compress=comp, include_dirs=inc)
+                else:
+                    a.assemble(path, compress=comp, include_dirs=inc)
             except BaseException as e:
                 exc = e
             cli = None
-            if case['cli']:
+            if case['cli'] and not as_text:
                 import sys
                 old = sys.argv
                 sys.argv = ['bronzebeard'] + (['-c'] if comp else []) + ['-i', inc[0], '-i', inc[1], '-o', os.path.join(root, 'o.bin'), path]
@@ -299,7 +309,11 @@ def judge(case, res):
                             a.cli_main()
                             cli = ('exit', 0, '')
                         except SystemExit as ex:
-                            cli = ('exit', ex.code if isinstance(ex.code, int) else (0 if ex.code is None else 1), '' if isinstance(ex.code, int) or ex.code is None else str(ex.code))
+                            try:
+                                msg = '' if isinstance(ex.code, int) or ex.code is None else str(ex.code)
+                                cli = ('exit', ex.code if isinstance(ex.code, int) else (0 if ex.code is None else 1), msg)
+                            except Exception as ex2:
+                                cli = ('raised', type(ex2).__name__, 'the message of the error cannot be built: %s' % ex2)
                         except BaseException as ex:
                             cli = ('raised', type(ex).__name__, str(ex))
                 finally:
@@ -330,8 +344,16 @@ def judge(case, res):
                 raise env.CaseFailure('raw:%s:%s' % (progcheck.exc_sig(exc), sig_tail),
                                       'planted %r (%s, compress=%s): the failure is %s: %s, not the assembler\'s own error' % (
                                           case['fault'], case['cls'], comp, type(exc).__name__, str(exc)[-200:]), payload)
+            try:
+                str(exc)
+            except Exception as e2:
+                raise env.CaseFailure('raw:str:%s:%s' % (type(e2).__name__, sig_tail), 'the error for planted %r cannot be turned into its message: str(e) raises %s: %s (file %r)' % (
+                    case['fault'], type(e2).__name__, e2, getattr(getattr(exc, 'line', None), 'file', None)), payload)
             ln = getattr(exc, 'line', None)
             where = (os.path.realpath(ln.file), ln.number) if ln is not None and isinstance(getattr(ln, 'file', None), str) else None
+            if as_text:
+                where = (ln.file, ln.number) if ln is not None else None
+                sites = [('<string>', n) for _, n in ok_sites]
             if case['cls'] == 'duplabel' and where not in sites:
                 # the assembler does not refuse duplicate labels as such; a refusal elsewhere is a side effect of the label's new
                 # place (an operand pushed out of range) and says nothing about the planted line
